@@ -2,6 +2,7 @@
 From BB Require Import Model.Birch Proofs.TreeDefs Proofs.TreeShape Proofs.TreeChain
      Proofs.TreeSums Proofs.TreeBal Proofs.BirchDefs Proofs.BirchInv Proofs.BirchRebuild
      Proofs.PropsGlue.
+From BB Require Proofs.BirchLabels.
 From Coq Require Import Permutation.
 Open Scope Z_scope.
 
@@ -10,6 +11,12 @@ Theorem C08_wellformed : forall fexp cfg0 ops,
   2 <= c_bf cfg0 -> ops_wf fexp (init cfg0) ops -> ops_perms_ok fexp (init cfg0) ops ->
   st_inv (run fexp cfg0 ops).
 Proof. intros fexp cfg0 ops H1 H2 H3. exact (proj1 (run_inv fexp cfg0 ops H1 H2 H3)). Qed.
+
+(* the same for histories whose fits carry caller-supplied labels (reinsert_indices) *)
+Theorem C08_wellformed_labels : forall fexp cfg0 ops,
+  2 <= c_bf cfg0 -> BirchLabels.ops_wf_l fexp (init cfg0) ops -> ops_perms_ok fexp (init cfg0) ops ->
+  st_inv (run fexp cfg0 ops).
+Proof. intros fexp cfg0 ops H1 H2 H3. exact (proj1 (BirchLabels.run_labels_inv fexp cfg0 ops H1 H2 H3)). Qed.
 
 (* ... which is, spelled out: caches mirror the entries' centroids, the leaf chain is
    exactly the leaves once each, inner entries are the exact totals of their subtree in the
